@@ -117,6 +117,34 @@ def RuleSrc.render (r : RuleSrc) : Str :=
 /-- a file: white space / comments `g0`, then every rule followed by its gap -/
 def renderFile (g0 : Str) (rs : List (RuleSrc × Str)) : Str := g0 ++ rs.flatMap fun x => x.1.render ++ x.2
 
+
+/-! ## rewriting the white-space slots (the layout) of a rule; `norm` = what `clean_text` makes of a slot -/
+
+/-- what `clean_text` makes of a white-space slot: one blank if it contains a line break, else the slot as written -/
+def norm (w : Str) : Str := if w.contains '\n' then [' '] else w
+
+/-- the same condition with every white-space slot rewritten by `σ` -/
+def LT.mapW (σ : Str → Str) : LT → LT
+  | .leaf s => .leaf s
+  | .paren wl wr t => .paren (σ wl) (σ wr) (t.mapW σ)
+  | .not w t => .not (σ w) (t.mapW σ)
+  | .ex wl wr t => .ex (σ wl) (σ wr) (t.mapW σ)
+  | .fa wl wr t => .fa (σ wl) (σ wr) (t.mapW σ)
+  | .or l wl wr r => .or (l.mapW σ) (σ wl) (σ wr) (r.mapW σ)
+  | .and l wl wr r => .and (l.mapW σ) (σ wl) (σ wr) (r.mapW σ)
+
+def HAttr.mapW (σ : Str → Str) (a : HAttr) : HAttr := { a with w1 := σ a.w1, w2 := σ a.w2 }
+
+def mapStmtW (σ : Str → Str) (x : Str × Str × Str) : Str × Str × Str := (σ x.1, x.2.1, σ x.2.2)
+
+/-- the same rule with every white-space slot rewritten by `σ` -/
+def RuleSrc.mapW (σ : Str → Str) (r : RuleSrc) : RuleSrc :=
+  { r with w0 := σ r.w0, w1 := σ r.w1, attrs := r.attrs.map (HAttr.mapW σ), w2 := σ r.w2, w3 := σ r.w3, cond := r.cond.mapW σ,
+           w4 := σ r.w4, w5 := σ r.w5, stmts := r.stmts.map (mapStmtW σ), w6 := σ r.w6 }
+
+/-- what `strip_comments` makes of a slot (white space and comments) -/
+def stripSlot (w : Str) : Str := stripComments w none
+
 /-! ## from the abstract rule list of a case and a layout word to the text -/
 
 def opSym : Op → Str
